@@ -99,7 +99,7 @@ FailSet(f) == {k \in DOMAIN f : ~f[k]}
 (* by 0 does not panic                                                         *)
 P_sch(par, x, a, c) == [alpha |-> a % par.q, t |-> (a + c * x) % par.q]
 G_sch(par, st, pf) ==
-  [ X_valid   |-> st.X % par.q # 0,            \* X.ValidateBasic(): an on-curve, representable point
+  [ X_valid   |-> par.idrep \/ st.X % par.q # 0,   \* X.ValidateBasic(): an on-curve, representable point
     t_nonzero |-> pf.t % par.q # 0 ]           \* t*G would be the identity
 E_sch(par, st, pf, c) ==
   [ eq |-> (pf.t - pf.alpha - c * st.X) % par.q = 0 ]      \* t*G = alpha + c*X
@@ -112,9 +112,9 @@ Out_sch(par, st, pf, c) ==
 P_schv(par, R, s, l, a, b, c) ==
   [alpha |-> (a * R + b) % par.q, t |-> (a + c * s) % par.q, u |-> (b + c * l) % par.q]
 G_schv(par, st, pf) ==
-  [ V_valid     |-> st.V % par.q # 0,
-    R_valid     |-> st.R % par.q # 0,
-    alpha_valid |-> pf.alpha % par.q # 0,
+  [ V_valid     |-> par.idrep \/ st.V % par.q # 0,
+    R_valid     |-> par.idrep \/ st.R % par.q # 0,
+    alpha_valid |-> par.idrep \/ pf.alpha % par.q # 0,
     t_nonzero   |-> pf.t % par.q # 0,
     u_nonzero   |-> pf.u % par.q # 0 ]
 E_schv(par, st, pf, c) ==
